@@ -522,6 +522,9 @@ def cli_cases(g, group, thorough):
         for f in sorted(os.listdir(os.path.join(REPO, "examples"))):
             if f.endswith(".s"):
                 out.append(("-", open(os.path.join(REPO, "examples", f)).read(), "abc\nhello\n"))
+    elif group == "data":
+        for c in data_cases(g, thorough, n(120, 1500)):
+            out.append(("-", c.replace("hlt\n", "print mem 0 -> 40\nhlt\n"), ""))
     elif group == "shapes":
         # every instruction alternative, executed (the printer and the interpreter are the judges)
         for c in shapes(g, False)[:: (1 if thorough else 4)]:
